@@ -74,11 +74,34 @@ def settings_for(cipher, hashing=None, chunking=None, kdf_n=4):
     return s
 
 
+class Session:
+    """Long-lived Repository objects (an embedding application, a server, the project's own tests): commands run one
+    after the other on ONE event loop through objects that are kept, instead of a fresh object per command.
+    mode 'one'      - one object per (repository, cache directory), re-unlocked with the credentials of whoever issues the command
+    mode 'per-user' - one object per (repository, cache directory, user), unlocked once"""
+
+    def __init__(self, mode):
+        assert mode in ('one', 'per-user')
+        self.mode = mode
+        self.loop = asyncio.new_event_loop()
+        self.repos = {}
+        self.unlocked_as = {}
+
+    def slot(self, client):
+        base = (id(client.backend), str(client.cache))
+        return base if self.mode == 'one' else base + (client.password, client.key)
+
+    def close(self):
+        with contextlib.suppress(Exception):
+            self.loop.close()
+
+
 class Client:
     """one user of one repository"""
 
-    def __init__(self, backend, password=None, key=None, cache=None, concurrent=4):
+    def __init__(self, backend, password=None, key=None, cache=None, concurrent=4, session=None):
         self.backend, self.password, self.key, self.cache, self.concurrent = backend, password, key, cache, concurrent
+        self.session = session
 
     def _repo(self):
         from replicat.repository import Repository
@@ -86,6 +109,8 @@ class Client:
                           cache_directory=str(self.cache) if self.cache is not None else None)
 
     def _run(self, fn, unlock=True):
+        if self.session is not None:
+            return self._run_in_session(fn, unlock)
         out, err = io.StringIO(), io.StringIO()
 
         async def go():
@@ -102,6 +127,27 @@ class Client:
                 value = asyncio.run(go())
             return Outcome('Ok', value, out.getvalue(), err.getvalue())
         except Exception as e:  # noqa: BLE001 - the outcome class is the observable
+            return Outcome(classify(e), None, out.getvalue(), err.getvalue(), f'{type(e).__name__}: {e}'[:300])
+
+    def _run_in_session(self, fn, unlock):
+        ses, out, err = self.session, io.StringIO(), io.StringIO()
+        k = ses.slot(self)
+
+        async def go():
+            repo = ses.repos.get(k)
+            if repo is None:
+                repo = ses.repos[k] = self._repo()
+            who = (self.password, self.key)
+            if unlock and ses.unlocked_as.get(k) != who:
+                ses.unlocked_as[k] = None
+                await repo.unlock(password=self.password, key=self.key)
+                ses.unlocked_as[k] = who
+            return await fn(repo)
+        try:
+            with contextlib.redirect_stdout(out), contextlib.redirect_stderr(err):
+                value = ses.loop.run_until_complete(go())
+            return Outcome('Ok', value, out.getvalue(), err.getvalue())
+        except Exception as e:  # noqa: BLE001
             return Outcome(classify(e), None, out.getvalue(), err.getvalue(), f'{type(e).__name__}: {e}'[:300])
 
     def init(self, settings, key_output_path=None):
